@@ -779,8 +779,10 @@ pub fn run(ctx: &Ctx) -> Result<Report, String> {
 
     // --- SGR mouse: all button codes x {M,m} x coordinates^2 --------------------------------
     let nc = COORD.len() as u64;
-    st.family("mouse", medium, 128 * 2 * nc * nc, |i| {
-        let (code, press, x, y) = (i % 128, i / 128 % 2 == 0, COORD[(i / 256 % nc) as usize], COORD[(i / 256 / nc) as usize]);
+    // button codes 0..=255: bits 0-1 button, 2-4 shift/meta/control, 5 motion, 6 wheel, 7 the extra buttons 8-11
+    // (which the library's naming table folds onto the first four)
+    st.family("mouse", medium, 256 * 2 * nc * nc, |i| {
+        let (code, press, x, y) = (i % 256, i / 256 % 2 == 0, COORD[(i / 512 % nc) as usize], COORD[(i / 512 / nc) as usize]);
         Some(one(if code & 64 != 0 { "wheel" } else { "button" }, print_mouse(code as u32, x, y, press)))
     });
 
